@@ -55,6 +55,9 @@ type File struct {
 	Entry    uint64    `json:"entry"`
 	Sections []Section `json:"sections"`
 	Progs    []Prog    `json:"progs"`
+	// NoNull: the section header table does not start with the customary null entry; the
+	// first described section is entry 0.
+	NoNull bool `json:"no_null_section,omitempty"`
 }
 
 func (f File) String() string {
@@ -104,6 +107,9 @@ func (f File) Bytes() []byte {
 	}
 	shoff := off + uint64(body.Len())
 	shnum := len(f.Sections) + 2
+	if f.NoNull {
+		shnum--
+	}
 
 	var out bytes.Buffer
 	eh := make([]byte, ehsize)
@@ -149,7 +155,9 @@ func (f File) Bytes() []byte {
 		le.PutUint64(b[48:], 1)
 		out.Write(b)
 	}
-	sh(0, 0, 0, 0, 0, 0)
+	if !f.NoNull {
+		sh(0, 0, 0, 0, 0, 0)
+	}
 	for i, s := range f.Sections {
 		size := uint64(len(s.Data))
 		if s.Type == SHT_NOBITS {
